@@ -93,15 +93,15 @@ type End struct {
 	ReadFailed         bool
 	WriteFaulted       bool // a Write call was refused by WriteFailAt
 	// hooks run inline in the calling thread
-	readBrk     chan struct{}
-	readDown    bool
+	readBrk  chan struct{}
+	readDown bool
 	// HoldIf: a Write call for which it returns true stays inside the transport (it does not see
 	// its context end: a kernel buffer, a peer that has stopped reading) until ReleaseHeld; it
 	// then fails (ReleaseHeld(true)) or goes on normally. Holding counts the calls held now.
-	HoldIf   func(k int, rpc *Rpc) bool
-	Holding  int
-	holdGate chan struct{}
-	holdFail bool
+	HoldIf      func(k int, rpc *Rpc) bool
+	Holding     int
+	holdGate    chan struct{}
+	holdFail    bool
 	OnWrite     func(k int, rpc *Rpc) // before the k-th envelope is enqueued
 	OnWriteCall func(k int, rpc *Rpc) // at the start of every Write call, before any injected failure
 	OnRead      func(k int, rpc *Rpc) // after the k-th envelope was dequeued
